@@ -665,6 +665,7 @@ End Monitor.
 (* what an accepted simulation run means *)
 Record sim_meaning (pay0 pay1 : nat -> N) (case out : list Z) : Prop := mkSM {
   sm_not_stalled : nthz out 0 = 0%Z;
+  sm_no_ghost_bytes : nthz out 43 = 0%Z;
   sm_c2s : dir_meaning pay0 (dobs_at out 6);
   sm_s2c : dir_meaning pay1 (dobs_at out 24);
   (* peer vanished / secret unknown: no operation stayed blocked for more than idle timeout + slack
@@ -673,6 +674,10 @@ Record sim_meaning (pay0 pay1 : nat -> N) (case out : list Z) : Prop := mkSM {
       (0 <= nthz out 2)%Z /\
       (d_wwait (dobs_at out 6) <= nthz out 1 + nthz out 3)%Z /\ (d_rwait (dobs_at out 6) <= nthz out 1 + nthz out 3)%Z /\
       (d_wwait (dobs_at out 24) <= nthz out 1 + nthz out 3)%Z /\ (d_rwait (dobs_at out 24) <= nthz out 1 + nthz out 3)%Z;
+  (* peer alive and knowing the secret, nobody walks away: the exchange completes in both directions *)
+  sm_complete : (nthz case 1 mod 3 = 0)%Z -> nthz case 19 = 0%Z ->
+      forall d, d = dobs_at out 6 \/ d = dobs_at out 24 ->
+      d_eof d = 1%Z /\ d_read d = d_intended d /\ d_written d = d_intended d /\ d_werr d = 0%Z /\ d_rerr d = 0%Z;
   sm_secret : (nthz case 1 mod 3 = 2)%Z -> d_rerr (dobs_at out 24) <> 0%Z /\ d_eof (dobs_at out 24) = 0%Z
 }.
 
@@ -683,6 +688,7 @@ Proof.
   repeat (apply andb_prop in H; destruct H as [H ?]).
   constructor.
   - apply Z.eqb_eq. assumption.
+  - apply Z.eqb_eq. assumption.
   - apply dir_ok_sound. assumption.
   - apply dir_ok_sound. assumption.
   - intros Hs. destruct (Z.eqb_spec (nthz case 1 mod 3) 0); [contradiction|].
@@ -691,6 +697,12 @@ Proof.
     repeat (match goal with X : (_ && _) = true |- _ => apply andb_prop in X; destruct X end).
     repeat match goal with X : (_ <=? _)%Z = true |- _ => apply Z.leb_le in X end.
     auto.
+  - intros Hs H19 d Hd. rewrite Hs, H19 in *. simpl in *.
+    repeat (match goal with X : (_ && _) = true |- _ => apply andb_prop in X; destruct X end).
+    unfold dir_complete in *.
+    repeat (match goal with X : (_ && _) = true |- _ => apply andb_prop in X; destruct X end).
+    repeat match goal with X : (_ =? _)%Z = true |- _ => apply Z.eqb_eq in X end.
+    destruct Hd as [-> | ->]; auto.
   - intros Hs. rewrite Hs in *. simpl in *.
     repeat (match goal with X : (_ && _) = true |- _ => apply andb_prop in X; destruct X end).
     split.
